@@ -18,6 +18,27 @@ func TestVerifBounded_FormatNumberRoundTrip(t *testing.T) {
 	decs := []string{"", "0", "5", "05", "50", "125", "999", "0005", "1250"}
 	formats := []string{"1,000.00", "1.000,00", "1 000.00", "1000.00", "1000,0", "1,000.0000", "1.000,000", "1,000."}
 	cases := 0
+	// the display format read from a commodity / D directive is the one that was written: decimal mark, group mark,
+	// number of decimals (a trailing mark means zero decimals with a decimal mark), with the symbol on either side
+	for _, w := range []struct {
+		text  string
+		mark  rune
+		group string
+		dec   int
+		has   bool
+	}{
+		{"1,000.00", '.', ",", 2, true}, {"1.000,00", ',', ".", 2, true}, {"1 000.00", '.', " ", 2, true}, {"1000.00", '.', "", 2, true},
+		{"1000,0", ',', "", 1, true}, {"1,000.0000", '.', ",", 4, true}, {"1.000,000", ',', ".", 3, true},
+		{"1000.", '.', "", 0, true}, {"1,000.", '.', ",", 0, true}, {"1.000,", ',', ".", 0, true}, {"1000", '.', "", 0, false},
+		{"$1,000.00", '.', ",", 2, true}, {"1.000,00 EUR", ',', ".", 2, true}, {"1000. JPY", '.', "", 0, true}, {"1 000,5 kr", ',', " ", 1, true},
+	} {
+		cases++
+		nf := ParseNumberFormat(w.text)
+		if nf.DecimalMark != w.mark || nf.ThousandsSep != w.group || nf.DecimalPlaces != w.dec || nf.HasDecimal != w.has {
+			fmt.Printf("BOUNDED-FAIL display format %q is read as mark %q group %q decimals %d hasDecimal %v; written: mark %q group %q decimals %d hasDecimal %v\n", w.text, nf.DecimalMark, nf.ThousandsSep, nf.DecimalPlaces, nf.HasDecimal, w.mark, w.group, w.dec, w.has)
+			return
+		}
+	}
 	for _, f := range formats {
 		nf := ParseNumberFormat(f)
 		for _, in := range ints {
